@@ -8,6 +8,9 @@ package vlx
 
 import (
 	"encoding/hex"
+	"fmt"
+	"strconv"
+	"strings"
 
 	"github.com/33cn/chain33/common/address"
 	"github.com/33cn/chain33/pluginmgr"
@@ -65,9 +68,17 @@ func (d *Driver) GetDriverName() string { return Name }
 // CheckTx accepts everything.
 func (d *Driver) CheckTx(tx *types.Transaction, index int) error { return nil }
 
-// Exec changes no state.
+// Exec changes no state, except for a payload "bulk:<n>", which writes n distinct state keys of the
+// executor's own namespace (a block with an unusually large write set).
 func (d *Driver) Exec(tx *types.Transaction, index int) (*types.Receipt, error) {
-	return &types.Receipt{Ty: types.ExecOk}, nil
+	rc := &types.Receipt{Ty: types.ExecOk}
+	if p := string(tx.Payload); strings.HasPrefix(p, "bulk:") {
+		n, _ := strconv.Atoi(p[len("bulk:"):])
+		for i := 0; i < n; i++ {
+			rc.KV = append(rc.KV, &types.KeyValue{Key: []byte(fmt.Sprintf("mavl-vlx-bulk-%05d", i)), Value: []byte("x")})
+		}
+	}
+	return rc, nil
 }
 
 func (d *Driver) count(delta int64) (*types.KeyValue, error) {
